@@ -179,6 +179,7 @@ def run(F, rep, tier="quick", extra=None, only=None):
     check_alloc(F, rep)
     check_in_place_maps(F, rep)
     check_forwarders(F, rep)
+    check_std_casts(F, rep)
     check_layout(F, rep, tier)
     return {"level": "other"}
 
@@ -488,6 +489,105 @@ def check_forwarders(F, rep):
                 rep.fail("CAST-FWD", key + " thin", "the forwarder does more than forward: %d cast calls, also %s (a retry, a fallback or a copy here bypasses "
                          "the rejection rules of the cast function)" % (n_cast, sorted(set(extra))), F.loc(b))
     rep.floor("cast trait forwarders", n, 100)
+
+
+# ------------------------------------------------------------------------------------------ CAST-STD
+# The std conversion traits that macros/casting.rs implements for every colour type (AsRef / AsMut / From / TryFrom between a colour
+# and its array, slice, boxed array or unsigned integer): each IS the cast function of its direction and ownership -- the same rule as
+# CAST-FWD for palette's own cast traits, over the 552 macro-generated bodies the cast traits do not go through.
+UINTS = ("u8", "u16", "u32", "u64", "u128")
+
+
+def _peel(t):
+    """(wrapper, inner): wrapper in '', 'ref', 'mut', 'box'."""
+    t = t.strip()
+    m = re.match(r"^&('\w+ )?(mut )?(.*)$", t)
+    if m:
+        return ("mut" if m.group(2) else "ref"), m.group(3).strip()
+    m = re.match(r"^(?:std|alloc)::boxed::Box<(.*)>$", t)
+    if m:
+        return "box", m.group(1).strip()
+    return "", t
+
+
+def _raw_kind(t):
+    if t.startswith("[") and ";" in t:
+        return "array"
+    if t.startswith("["):
+        return "slice"
+    if t in UINTS:
+        return "uint"
+    return None
+
+
+def check_std_casts(F, rep):
+    n = 0
+    for b in F.bodies:
+        if not b["file"].endswith("macros/casting.rs") or "::test" in b["path"] or b["dk"] not in ("Fn", "AssocFn"):
+            continue
+        im = b["_impl"]
+        if im is None or not im.get("trait"):
+            continue
+        tr = im["trait"].split("::")[-1]
+        if tr not in ("AsRef", "AsMut", "From", "TryFrom"):
+            rep.fail("CAST-STD", "%s[%s]" % (im["trait"], im["self_s"]), "casting macro implements a trait without a forwarding rule", F.loc(b))
+            continue
+        self_t, arg_t = im["self_s"], im["trait_args_s"][0]
+        key = "%s<%s> for %s" % (tr, arg_t, self_t)
+        src, dst = (self_t, arg_t) if tr in ("AsRef", "AsMut") else (arg_t, self_t)
+        ws, s_in = _peel(src)
+        wd, d_in = _peel(dst)
+        ks, kd = _raw_kind(s_in), _raw_kind(d_in)
+        # Packed<O, P>: the unsigned integer is the type parameter P itself
+        for a_, b_ in ((s_in, d_in), (d_in, s_in)):
+            m = re.match(r"^cast::packed::Packed<\w+, (\w+)>$", a_)
+            if m and b_ == m.group(1):
+                if a_ is s_in:
+                    kd = "uint"
+                else:
+                    ks = "uint"
+        n += 1
+        if (ks is None) == (kd is None) or ws != wd and tr not in ("AsRef", "AsMut"):
+            rep.fail("CAST-STD", key, "cannot classify: exactly one side must be an array, slice or unsigned integer (source %s, target %s)" % (src, dst), F.loc(b))
+            continue
+        stem = "from" if ks is not None else "into"   # raw -> colour is from_*, colour -> raw is into_*
+        raw = ks or kd
+        own = {"AsRef": "ref", "AsMut": "mut"}.get(tr, ws)
+        calls, paths, extra = [], [], []
+        for node, _p in facts.walk(b["body"]):
+            c = node.get("c")
+            if isinstance(c, dict) and "d" in c:
+                calls.append(F.S[c["d"]])
+            if node.get("k") == "path" and isinstance(node.get("res"), dict) and node["res"].get("k") == "def" and node["res"].get("dk") in ("Fn", "AssocFn") \
+                    and isinstance(node["res"].get("c"), dict):
+                paths.append(F.S[node["res"]["c"]["d"]])
+            if node.get("k") not in ("path", "block", "call", "mcall", "ref", "un"):
+                extra.append("<%s>" % node.get("k"))   # indexing, control flow, literals, closures: more than a forwarder
+        cast_calls = sorted(x.split("::")[-1] for x in calls + paths if x.startswith("cast::"))
+        std_calls = sorted(x.split("::")[-1] for x in calls if not x.startswith("cast::"))
+        kind = "uint" if raw == "uint" else "array"
+        suffix = {"": "", "ref": "_ref", "mut": "_mut", "box": "_box"}[own]
+        direct = "%s_%s%s" % (stem, kind, suffix)
+        if tr == "TryFrom":
+            # &[T] -> &Colour: the std length check ([T] -> [T; N]), then the array cast
+            want = ([direct], ["map", "try_into"])
+        elif raw == "slice":
+            # Colour -> &[T]: unsizing of the array view
+            want = ([], ["as_mut" if own == "mut" else "as_ref"])
+        elif tr == "From" and own in ("ref", "mut"):
+            want = ([], ["as_mut" if own == "mut" else "as_ref"])
+        else:
+            want = ([direct], [])
+        ok = cast_calls == want[0] and std_calls == want[1] and not extra
+        # the std hop must land on the array view of the same colour (as_ref::<[T; N]>), never on another impl
+        detail = "calls cast::%s + %s%s; expected cast::%s + %s" % (cast_calls, std_calls, (" " + " ".join(extra)) if extra else "", want[0], want[1])
+        if ok and not want[0] and tr in ("AsRef", "AsMut"):
+            inner = [F.ty(node) for node, _p in facts.walk(b["body"]) if isinstance(node.get("c"), dict) and "d" in node["c"]]
+            okv = any(t and _raw_kind(_peel(t)[1]) == "array" for t in inner)
+            if not okv:
+                ok, detail = False, "the slice view is not taken from the array view of the colour (call types %s)" % inner
+        rep.ob("CAST-STD", key, ok, detail, F.loc(b), nontrivial=False)
+    rep.floor("std conversion impls of macros/casting.rs", n, 552)
 
 
 # ------------------------------------------------------------------------------------------ LAYOUT witness
